@@ -55,13 +55,18 @@ def run_polychord(loglikelihood, nDims, nDerived, settings, prior=default_prior,
     call = {'sampler': 'polychord', 'kwargs': {k: v for k, v in vars(settings).items()}, 'ndim': nDims,
             'nderived': nDerived, 'loglike': loglikelihood, 'prior': prior, 'records': [], 'files': {}}
     RECORDER.calls.append(call)
+    work_theta, work_cube = np.empty(nDims), np.empty(nDims)
     for k, entry in enumerate(RECORDER.script):
         rec = {'entry': k, 'u': None, 'theta': None, 'prior_exc': None, 'loglike': None, 'loglike_exc': None,
                'loglike_type': None}
         call['records'].append(rec)
-        theta = np.empty(nDims)
+        theta = work_theta if RECORDER.reuse_buffers else np.empty(nDims)
         if 'u' in entry:
-            cube = np.array(entry['u'], dtype=float)
+            if RECORDER.reuse_buffers:
+                work_cube[:] = np.array(entry['u'], dtype=float)
+                cube = work_cube
+            else:
+                cube = np.array(entry['u'], dtype=float)
             rec['u'] = cube.tolist()
             try:
                 theta[:] = prior(cube)
